@@ -186,17 +186,18 @@ class DomModel(object):
         first (as _getElementsByTagName documents), then children; every element
         once."""
         out = []
+        tags = tag if isinstance(tag, (list, tuple)) else [tag]      # "the name or list of names"
         if self.kind[nid] == "text":
             return out
         if self.kind[nid] == "elem":
             for k, v in self.attrs[nid].items():
                 if nid in self.alias and self.alias[nid] == v:
                     continue            # the child list itself: listed below
-                if self.kind[v] == "elem" and self.name[v] == tag:
+                if self.kind[v] == "elem" and self.name[v] in tags:
                     out.append(v)
                 out.extend(self.by_tag(v, tag))
         for c in self.children[nid]:
-            if self.kind[c] == "elem" and self.name[c] == tag:
+            if self.kind[c] == "elem" and self.name[c] in tags:
                 out.append(c)
             out.extend(self.by_tag(c, tag))
         return out
